@@ -15,6 +15,8 @@ import (
 	"os"
 	"path/filepath"
 	"runtime"
+	"runtime/debug"
+	"runtime/pprof"
 	"sort"
 	"strconv"
 	"strings"
@@ -48,6 +50,7 @@ type Job struct {
 	Witness    *interp.Witness   `json:"witness"`
 	MapOrder   string            `json:"map_order"`
 	Redirects  map[string]string `json:"redirects"`
+	NoSkipGuard bool             `json:"no_skip_guard"`
 }
 
 type Spec struct {
@@ -215,12 +218,33 @@ func main() {
 	})
 	interp.RegisterEnumStringers()
 	prog, _ := ssautil.AllPackages(pkgs, ssa.InstantiateGenerics)
-	prog.Build()
+	// SSA bodies are built on demand (first call into a package), see interp.callSSA:
+	// only the packages under test are built eagerly
+	for _, p := range prog.AllPackages() {
+		if strings.HasPrefix(p.Pkg.Path(), modPath) {
+			p.Build()
+		}
+	}
 	out.LoadSec = time.Since(t0).Seconds()
 	out.Packages = len(prog.AllPackages())
+	pkgs = nil
+	runtime.GC()
+	var ms runtime.MemStats
+	runtime.ReadMemStats(&ms)
+	fmt.Fprintf(os.Stderr, "gosymx: live heap after load %d MB\n", ms.HeapInuse>>20)
 	fmt.Fprintf(os.Stderr, "gosymx: loaded %d packages in %.1fs\n", out.Packages, out.LoadSec)
 	runtime.GOMAXPROCS(runtime.NumCPU())
+	gcp := 400
+	if v := os.Getenv("VERIF_GOGC"); v != "" {
+		gcp, _ = strconv.Atoi(v)
+	}
+	debug.SetGCPercent(gcp)
 
+	if pf := os.Getenv("VERIF_PROF"); pf != "" {
+		f, _ := os.Create(pf)
+		pprof.StartCPUProfile(f)
+		defer pprof.StopCPUProfile()
+	}
 	byPath := map[string]*ssa.Package{}
 	for _, p := range prog.AllPackages() {
 		byPath[p.Pkg.Path()] = p
@@ -248,7 +272,7 @@ func main() {
 			MaxPaths: j.MaxPaths, MaxSteps: j.MaxSteps, Deadline: time.Duration(j.DeadlineS * float64(time.Second)),
 			Sched: j.Sched, SchedFuncs: j.SchedFuncs, SchedOther: j.SchedOther, Prune: j.Prune,
 			Params: j.Params, Redirects: red, InitAllow: allow, Warmup: j.Warmup, Transcript: j.Transcript,
-			RepoPrefix: modPath, Concrete: j.Concrete, Witness: j.Witness, MapOrder: j.MapOrder,
+			RepoPrefix: modPath, Concrete: j.Concrete, Witness: j.Witness, MapOrder: j.MapOrder, NoSkipGuard: j.NoSkipGuard,
 		}}
 		r := ex.Run()
 		// keep only functions of the code under test and selected std packages in the report
